@@ -1,0 +1,61 @@
+//go:build verif
+
+package network
+
+// Read-only accessors used by the verification harness (properties C12, C13). Add-only; nothing here
+// is reachable from the library itself.
+
+// VerifNodePrivate returns the unexported mutable fields of a node: isActive, lastActivation, lastActivation2.
+func VerifNodePrivate(n *NNode) (bool, float64, float64) {
+	return n.isActive, n.lastActivation, n.lastActivation2
+}
+
+// VerifFastState is a copy of the mutable arrays of a fast solver.
+type VerifFastState struct {
+	Signals, BeingProcessed, LastActivation []float64
+	Activated, InActivation                 []bool
+}
+
+// VerifFastStatic is a copy of the immutable description of a fast solver.
+type VerifFastStatic struct {
+	Bias, In, Out, Total int
+	Activations          []int
+	Sources, Targets     []int
+	Weights              []float64
+	Biases               []float64
+	Modules              int
+}
+
+// VerifFastSolverState copies the mutable arrays of s (nil if s is not a fast solver).
+func VerifFastSolverState(s Solver) *VerifFastState {
+	f, ok := s.(*FastModularNetworkSolver)
+	if !ok {
+		return nil
+	}
+	return &VerifFastState{
+		Signals:        append([]float64{}, f.neuronSignals...),
+		BeingProcessed: append([]float64{}, f.neuronSignalsBeingProcessed...),
+		LastActivation: append([]float64{}, f.lastActivation...),
+		Activated:      append([]bool{}, f.activated...),
+		InActivation:   append([]bool{}, f.inActivation...),
+	}
+}
+
+// VerifFastSolverStatic copies the immutable description of s (nil if s is not a fast solver).
+func VerifFastSolverStatic(s Solver) *VerifFastStatic {
+	f, ok := s.(*FastModularNetworkSolver)
+	if !ok {
+		return nil
+	}
+	st := &VerifFastStatic{Bias: f.biasNeuronCount, In: f.inputNeuronCount, Out: f.outputNeuronCount,
+		Total: f.totalNeuronCount, Biases: append([]float64{}, f.biasList...), Modules: len(f.modules)}
+	for _, a := range f.activationFunctions {
+		st.Activations = append(st.Activations, int(a))
+	}
+	for _, c := range f.connections {
+		st.Sources = append(st.Sources, c.SourceIndex)
+		st.Targets = append(st.Targets, c.TargetIndex)
+		st.Weights = append(st.Weights, c.Weight)
+	}
+	return st
+}
